@@ -116,8 +116,8 @@ def main():
                                "cases": new_disagreements[:5]})
     # the function-level tie (translated code refined to the model; translated code run against the implementation) is the stronger of two
     # ties.  When it is not re-established on this tree while the model theorems, the executable model and the correspondence all hold, the
-    # property is still decided (hand-written model + correspondence); the quick tier says so (TIE-DEGRADED) instead of raising an alarm; the
-    # thorough tier (or VERIF_STRICT_TIE=1) takes the strict reading and reports a violation without a failing input.
+    # property is still decided by the other tie (hand-written model + correspondence), but no longer for the code as written: reported as a violation
+    # without a failing input (the brief's reading).  VERIF_STRICT_TIE=0 prints TIE-DEGRADED and exits 0 instead.
     degraded = None
     tie_broken = (adv is not None and not adv["re_established"]) or bool(ctx.advisory_disagreements)
     if tie_broken and not violations:
@@ -126,8 +126,9 @@ def main():
                     "theorem_file": "coq/props/%sG.v" % pid if adv is not None else None,
                     "error": (adv or {}).get("error", ""), "bad_axioms": (adv or {}).get("bad_axioms", []), "failed_files": b.get("failed_advisory", []),
                     "generated_code_disagreements": ctx.advisory_disagreements[:5]}
-        # quick tier: lenient (a refactoring must not cry wolf on every change); thorough tier: the function-level tie is binding
-        strict = os.environ.get("VERIF_STRICT_TIE", "") == "1" or (tier == "thorough" and os.environ.get("VERIF_STRICT_TIE", "") != "0")
+        # the function-level tie is binding in both tiers (measured on six waves of seeded changes: the search alone misses about half of the
+        # fresh rare-input changes at first sight, and nearly all of those sit in a refined function); VERIF_STRICT_TIE=0 reports TIE-DEGRADED instead
+        strict = os.environ.get("VERIF_STRICT_TIE", "") != "0"
         if strict:
             violations.append(dict(degraded, kind="function-level-tie-broken", no_failing_input_found=True))
             degraded = None
@@ -146,7 +147,7 @@ def main():
             "stated": len((adv or {}).get("stated", [])), "checked": len((adv or {}).get("theorems", [])) if (adv or {}).get("re_established") else 0,
             "theorems": (adv or {}).get("theorems", []), "re_established": bool(adv is None or adv["re_established"]) and not ctx.advisory_disagreements,
             "generated_code_cases": ctx.advisory_cases, "generated_code_disagreements": len(ctx.advisory_disagreements),
-            "policy": "quick tier: not binding (TIE-DEGRADED); thorough tier or VERIF_STRICT_TIE=1: binding (VIOLATION ... no-failing-input-found); see DESIGN.md section 4"},
+            "policy": "binding: a failure is reported as VIOLATION ... no-failing-input-found (VERIF_STRICT_TIE=0: TIE-DEGRADED line, exit 0); see DESIGN.md section 4"},
         "correspondence": ctx.corr_stats,
         "search": ctx.search_stats,
         "evaluations": ctx.evaluations,
